@@ -631,6 +631,12 @@ func ProjectMem(nd *Node, u *Universe, height uint64) *Abs {
 		}
 		a.Coins[cstr(c)] = ac
 	}
+	// blocked public keys: asked key by key for every key name the harness has ever used (the node exposes no list)
+	for _, name := range n.PubNames() {
+		if cs.Candidates().IsBlockedPubKey(n.Pub(name)) {
+			a.Blocked = append(a.Blocked, name)
+		}
+	}
 	// candidates first (they may add addresses)
 	cands := cs.Candidates().GetCandidates()
 	for _, c := range cands {
